@@ -4,8 +4,8 @@
    peer) until it acquires the mutex or is dropped: [ftick f = 2]. While such an operation is alive,
    try_lock / try_lock_arc return None in every reachable state — also while bit 0 is clear —
    for every oracle stream. The ordering clause (no later lock operation overtakes the starved one
-   when polls are serialised) is not yet proved; it is monitored on the implementation. *)
-From AL Require Import Base Api Mutex MutexApi MutexInv.
+   when polls are serialised) is C13_order_hist below (Proofs/MutexOrder.v). *)
+From AL Require Import Base Api Mutex MutexApi MutexInv MutexLive MutexOrder.
 From AL.Tie Require Tie_Mutex.
 From AL.Sched Require MutexEvSched MutexEvInv MutexEvOrd.
 
@@ -34,6 +34,41 @@ Proof.
   eexists 0%nat, _. split; [left; reflexivity | reflexivity].
 Qed.
 
+(* ---------- the ordering clause (polls serialised: the poll-granular machine) ---------- *)
+(* For every history ops1 ++ ops2 and every oracle stream: if lock operation A holds a starvation ticket after ops1, B is a
+   lock operation started after that moment (its id is not yet in use after ops1: it is created by an MLock of ops2), and
+   A still holds its ticket after ops1 ++ ops2 — it has neither acquired the mutex nor been dropped in between (a ticket
+   that is given up never comes back) — then a poll of B does not complete: no later operation acquires the mutex before
+   the starved one. The proof (MutexOrder.v) keeps three invariants of lock_ops: the queue is sorted by age and only its
+   head can be notified; while somebody is starved and an entry is notified the mutex is unlocked, so the starved
+   operation never has to re-register; the later operations' entries are behind A's. *)
+Theorem C13_order_hist : forall (ops1 ops2 : list mop) (a b k g : nat) (fa fa' : mfut),
+  N.of_nat (length (ops1 ++ ops2)) < LIVE_BOUND ->
+  alookup a (m_futs (mrun ops1)) = Some fa -> ftick fa = 2 ->
+  (m_nf (mrun ops1) <= b)%nat ->
+  alookup a (m_futs (mrun (ops1 ++ ops2))) = Some fa' -> ftick fa' = 2 ->
+  o_res (snd (mstep (mrun (ops1 ++ ops2)) (MPoll b k))) <> RReady g.
+Proof. exact mutex_starved_order. Qed.
+
+(* the two invariants of lock_ops it rests on, in every reachable state: sorted by listener id, only the head notified;
+   word >= 2 and some entry notified ==> word even *)
+Theorem C13_queue_invariants : forall ops, N.of_nat (length ops) < LIVE_BOUND ->
+  let s := m_sh (mrun ops) in
+  Sorted.StronglySorted Nat.lt (map eid (se0 s)) /\ tail_clean (se0 s) = true /\
+  (2 <= sw0 s -> EventFacts.has_notified (se0 s) = true -> sw0 s mod 2 = 0).
+Proof. intros ops B. destruct (run_OInv ops B) as ([A _ C] & J). split; [exact A | split; [exact C | exact J]]. Qed.
+
+(* non-vacuity: A (future 0) is starved behind a barging try_lock; B (future 1) is started afterwards and queues; the guard
+   is dropped: the mutex is UNLOCKED, A is notified but not yet polled; a poll of B returns Pending, a poll of A Ready *)
+Example C13_order_nonvacuous :
+  let ops1 := [MTry false; MLock false; MPoll 0 0; MDropGuard 0; MTry false; MSetOracle [true]; MPoll 0 0] in
+  let ops2 := [MLock false; MPoll 1 0; MDropGuard 1] in
+  let x := mrun (ops1 ++ ops2) in
+  (exists fa, alookup 0 (m_futs (mrun ops1)) = Some fa /\ ftick fa = 2) /\ m_nf (mrun ops1) = 1%nat /\
+  (exists fa', alookup 0 (m_futs x) = Some fa' /\ ftick fa' = 2) /\ m_guards x = [] /\ sw0 (m_sh x) mod 2 = 0 /\
+  o_res (snd (mstep x (MPoll 1 1))) = RPending /\ o_res (snd (mstep x (MPoll 0 1))) = RReady 2.
+Proof. vm_compute. repeat split; eexists; split; reflexivity. Qed.
+
 (* ---------- schedule half of the try_lock clause: every interleaving of atomic actions ---------- *)
 (* On the micro-step machine of Sched/MutexEvSched.v (see C05), in EVERY reachable state of EVERY schedule: while some lock
    operation holds a starvation ticket (from its fetch_add(2) until its take_mutex or its drop) the state word is not 0, so
@@ -48,3 +83,5 @@ Proof. rewrite MutexEvOrd.mutex_bt_premise. exact MutexEvInv.mutex_sched_starved
 Print Assumptions C13_closed_hist.
 Print Assumptions C13_ticket_in_word.
 Print Assumptions C13_closed_sched.
+Print Assumptions C13_order_hist.
+Print Assumptions C13_queue_invariants.
